@@ -188,6 +188,7 @@ func TestC08(t *testing.T) {
 		cfg.MaxDepth = 4
 	}
 	cfg.AvoidKeptReserve = c.HasKnown("C08/dest-inorder/kept-reserve-overconsumed")
+	// (one overdraft bound in ten is written in another asset than the send's: the source contradicts itself and must be refused)
 	runProp(t, c, func(rt *rapid.T) {
 		cs := numgen.GenTyped(rt, cfg)
 		for i := 0; i < cs.Excluded; i++ {
